@@ -20,6 +20,7 @@ import (
 	"github.com/nspcc-dev/neo-go/pkg/core/transaction"
 	"github.com/nspcc-dev/neo-go/pkg/io"
 	npayload "github.com/nspcc-dev/neo-go/pkg/network/payload"
+	"github.com/nspcc-dev/neo-go/pkg/smartcontract"
 	"github.com/nspcc-dev/neo-go/pkg/util"
 	"go.uber.org/zap"
 	"go.uber.org/zap/zapcore"
@@ -29,11 +30,11 @@ import (
 
 // Scenario is the per-replay configuration on top of a Setup.
 type Scenario struct {
-	Name    string          `json:"name"`
-	Family  string          `json:"family"`
-	Heights int             `json:"heights"` // blocks to produce past the preamble
-	Skew    []time.Duration `json:"skew"`    // per node clock skew (nil = none)
-	TxAt    map[string][]int `json:"tx_at"`  // catalogue tx name -> nodes whose mempool holds it before the services start
+	Name    string           `json:"name"`
+	Family  string           `json:"family"`
+	Heights int              `json:"heights"` // blocks to produce past the preamble
+	Skew    []time.Duration  `json:"skew"`    // per node clock skew (nil = none)
+	TxAt    map[string][]int `json:"tx_at"`   // catalogue tx name -> nodes whose mempool holds it before the services start
 }
 
 // Event kinds.
@@ -85,7 +86,9 @@ type Payload struct {
 	View     byte
 	VIdx     uint16
 	TxHashes []string // PrepareRequest only
-	PoolSnap []string // PrepareRequest only: the sender's verified mempool when it proposed
+	PoolSnap []string // PrepareRequest only: the sender's verified mempool when it proposed (sorted)
+	Expect   []string // PrepareRequest only: the limit-respecting prefix of that mempool in priority order (what a view-0 proposal must be)
+	PoolFee  int64    // total system fee of TxHashes as found in the sender's pool (-1: some proposed tx is not pooled)
 	Digest   string   // abstract digest (no timestamps/signatures)
 	Lost     bool     // sender was silent
 }
@@ -355,10 +358,44 @@ func (w *World) onBroadcast(n *NodeRT, ep *npayload.Extensible) {
 		for _, h := range cp.GetPrepareRequest().TransactionHashes() {
 			p.TxHashes = append(p.TxHashes, h.StringLE())
 		}
-		for _, tx := range n.C.BC.GetMemPool().GetVerifiedTransactions() {
+		ordered := n.C.BC.GetMemPool().GetVerifiedTransactions() // priority order
+		fees := map[string]int64{}
+		for _, tx := range ordered {
 			p.PoolSnap = append(p.PoolSnap, tx.Hash().StringLE())
+			fees[tx.Hash().StringLE()] = tx.SystemFee
 		}
 		sort.Strings(p.PoolSnap)
+		// Independent statement of the packing policy: at most
+		// MaxTransactionsPerBlock transactions in priority order, stopping BEFORE
+		// the first one that would take the block over MaxBlockSize or
+		// MaxBlockSystemFee.
+		if cfg.MaxTransactionsPerBlock != 0 && len(ordered) > int(cfg.MaxTransactionsPerBlock) {
+			ordered = ordered[:cfg.MaxTransactionsPerBlock]
+		}
+		vals, _ := n.C.BC.GetNextBlockValidators()
+		verif, _ := smartcontract.CreateDefaultMultiSigRedeemScript(vals)
+		hdr := &block.Block{Header: block.Header{StateRootEnabled: cfg.StateRootInHeader, Script: transaction.Witness{
+			InvocationScript:   make([]byte, 66*smartcontract.GetDefaultHonestNodeCount(len(vals))),
+			VerificationScript: verif,
+		}}}
+		size := uint32(hdr.GetExpectedBlockSizeWithoutTransactions(len(ordered)))
+		var fee int64
+		p.Expect = []string{}
+		for _, tx := range ordered {
+			if size+uint32(tx.Size()) > cfg.MaxBlockSize || fee+tx.SystemFee > cfg.MaxBlockSystemFee {
+				break
+			}
+			size += uint32(tx.Size())
+			fee += tx.SystemFee
+			p.Expect = append(p.Expect, tx.Hash().StringLE())
+		}
+		for _, h := range p.TxHashes {
+			if f, ok := fees[h]; ok && p.PoolFee >= 0 {
+				p.PoolFee += f
+			} else {
+				p.PoolFee = -1
+			}
+		}
 		abstract += "/" + strings.Join(p.TxHashes, ",")
 	case dbft.ChangeViewType:
 		abstract += fmt.Sprintf("/nv%d/%d", cp.GetChangeView().NewViewNumber(), cp.GetChangeView().Reason())
@@ -1017,4 +1054,27 @@ func (w *World) Summary() string {
 	}
 	fmt.Fprintf(&sb, "pending=%d", len(w.Pending))
 	return sb.String()
+}
+
+// MissingOnChain lists the scenario's transactions (by catalogue name) that
+// node n's ledger does not contain.
+func (w *World) MissingOnChain(n int) []string {
+	var miss []string
+	names := make([]string, 0, len(w.Sc.TxAt))
+	for k := range w.Sc.TxAt {
+		names = append(names, k)
+	}
+	sort.Strings(names)
+	for _, name := range names {
+		for _, t := range w.S.Txs {
+			if t.Name != name {
+				continue
+			}
+			h, _ := util.Uint256DecodeStringLE(t.Hash)
+			if _, _, err := w.Nodes[n].C.BC.GetTransaction(h); err != nil {
+				miss = append(miss, name)
+			}
+		}
+	}
+	return miss
 }
